@@ -55,6 +55,17 @@ def relation_check(ctx, c, outs):
     O, R = representatives(G, c["q"], c["rep"])
     O3 = Orientation(np.asarray(c["q3"], float).reshape(1, 4), symmetry=G3)
     v = Vector3d(np.asarray(c["v"], float))
+    if c["rep"] == "zone":
+        # what the code documents and does: R = O*g for a proper operation g of G (the open finding is that this is not
+        # a LEFT equivalent).  Anything else is a different violation and is reported under its own text.
+        qo = np.asarray(c["q"], float)
+        d, imp = G.data.reshape(-1, 4).astype(float), G.improper.reshape(-1).astype(bool)
+        from .c04 import hmul
+        cand = hmul(qo[None, :], d[~imp])
+        r = R.data.reshape(-1, 4)[0]
+        if np.min(np.minimum(np.abs(cand - r).max(axis=1), np.abs(cand + r).max(axis=1))) > 1e-9:
+            return (f"{G.name}: the reduced-zone representative {r.tolist()} of O = {c['q']} is not of the form O*g for any "
+                    f"proper operation g of the group")
     with warnings.catch_warnings():
         warnings.simplefilter("ignore")
         # (a) zero reduced angle to the orientation itself
@@ -155,8 +166,8 @@ SITES = {
 }
 
 
-def _zone(case):
-    return case.get("rep") == "zone"
+def _zone(case, what=""):
+    return case.get("rep") == "zone" and "is not of the form O*g" not in str(what)
 
 
 def _sector_labels(case):
